@@ -24,7 +24,11 @@ ASSUMPTIONS = ['protocol glue: hex fields; pairs as <key>:<value> lists; HashMap
                'that differ only in case, accents or width',
                'a request with an exact Content-Length, a Host header or a browser\'s usual header block is a request to the echo endpoint as much as the bare one; '
                'a request whose bytes number at most the request allocation size is "within the request buffer"; the empty map is submitted as the empty query / body',
-               'get_uri_query is judged on origin-form targets <path>?<query> for plain paths (unreserved characters, dots, slashes, non-ASCII letters) besides /form-get-method']
+               'get_uri_query is judged on origin-form targets <path>?<query> for plain paths (unreserved characters, dots, slashes, non-ASCII letters) besides /form-get-method',
+               'second audit pass: the request buffer is the configured request allocation size (Server::process: ConnectionInfo.request_size; process_request: '
+               'RWS_CONFIG_REQUEST_ALLOCATION_SIZE_IN_BYTES): a request of at most that many bytes is "within the request buffer" whatever the setting; the application '
+               'handler called directly on the parsed request (App::execute / App::handle_request, the four controller functions without the server loop) is an echo endpoint too; '
+               'a media type with parameters, fields in both the target and the body, and requests that are not form submissions are outside the statement (judged only on a 200 / compared only)']
 
 # the characters `encode_uri_component` escapes — written from the crate's documentation/test, not from the model
 ENCODED = set('% \r\n!"#$&\'()*+,/:;=@[]')
@@ -158,6 +162,83 @@ FULL_URLS = ['', ':', 'a', 'a:', 'a:b', 'http://', 'http:///', 'http://h', 'http
     'http://a]b]c:8/', 'http://h:+8/', 'http://u@v@h/', 'x:/a//b/c', 'x:a//b', 'x:?a//b', 'x://h?a/b', 'x://h#a/b', 'x://h?a#b/c', 'x://h/p#a?b',
     'x:p?q#', 'x:p?#f', 'x:p#', 'x:#', 'x:?', 'x:p?a=%2526&%26=1', '://', ':///', 'http://h:99999999999999999999/']
 
+def second_pass(e):
+    """echo classes of the second audit pass (audit/C17/AUDIT2.md); `e` = the locals of echo_part (its request builders)"""
+    put, enc, tree4 = e['put'], e['enc'], e['tree4']
+    def get(*a, **kw): kw.setdefault('t', tree4); return e['get'](*a, **kw)
+    def post(*a, **kw): kw.setdefault('t', tree4); return e['post'](*a, **kw)
+    def other(*a, **kw): kw.setdefault('t', tree4); return e['other'](*a, **kw)
+    def four(m, cls):
+        for en in e['ENT']: get(m, en, cls); post(m, en, cls)
+    rng, quick, ENT, ALLOC, ALLOC3, tree3, G, K = e['rng'].fork('second-pass'), e['quick'], e['ENT'], e['ALLOC'], e['ALLOC3'], e['tree3'], e['G'], e['K']
+    GETP, POSTP = e['GETP'], e['POSTP']
+    clean = lambda m: not any(has_later(k) or has_later(v) for k, v in m.items())
+    def cl(m): return [X.CT, ('Content-Length', str(len(enc(m).encode())))]
+    # 1. relation families: quotes, array / nested names, other escape syntaxes, typed values, comment / continuation signs, special casing
+    fm = [(c, m) for c, m in X.feature_maps() if clean(m)]
+    for i, (c, m) in enumerate(fm):
+        if quick: get(m, ENT[i % 2], c); post(m, ENT[(i + 1) % 2], c, hs=cl(m) if i % 4 < 2 else None)
+        else: four(m, c)
+    # 2. a multi-byte character / an escape triplet across EVERY byte offset of every frame of a request that nearly fills the buffer
+    for i, (frame, m) in enumerate(X.align_sweeps(quick)):
+        get(m, ENT[i % 2], 'align-sweep ' + frame, hs=X.BROWSER[:1] if i % 3 == 2 else ())
+        post(m, ENT[(i + 1) % 2], 'align-sweep ' + frame, hs=cl(m) if i % 2 else None)
+    # 3. histories on ONE process: each sequence through the GET endpoint, then through the POST endpoint; a failing request in between
+    bad = [('POST', POSTP, [X.CT], b'a=\xff\xfe&b=1'), ('GET', '/no-such-page?a=1', [], b''), ('GET', 'form-get-method?a=1', [], b''), ('POST', POSTP, [X.CT], b'k=\xe2\x82'),
+           ('POST', POSTP, [('Content-Type', 'text/plain')], b'a=1'), ('HEAD', GETP + '?a=1', [], b''), ('GET', GETP + '?a=1#b=2', [], b''), ('GET', GETP + '?a=1&a=2', [], b'')]
+    for si, seq in enumerate(X.history_sequences(quick)):
+        seq = [m for m in seq if clean(m)]
+        for rnd, ents in enumerate([(ENT[si % 2], ENT[(si + 1) % 2])] if quick else [(ENT[0], ENT[1]), (ENT[1], ENT[0])]):
+            for i, m in enumerate(seq):
+                get(m, ents[0], 'history')
+                if i % 3 == 1: other(*bad[(si + i + 1) % len(bad)], ents[0], 'history failing-between')
+            for i, m in enumerate(seq):
+                post(m, ents[1], 'history', hs=cl(m) if (i + rnd) % 2 else None)
+                if i % 3 == 1: other(*bad[(si + i) % len(bad)], ents[1], 'history failing-between')
+    # 4. the handler without the server in front of it (App::execute / App::handle_request on the parsed request: no buffer, nothing behind the body)
+    direct = [m for c, m in fm[::9]] + [{'Name': '1', 'name': '2', 'NAME': '3'}, {'naïve': 'café ☕', '日本': '語 テキスト', '\U0001F600': '\U0001F600 \U0001F44D'}, {'a&b': 'c=d', 'a': 'b&c', 'x': '?#/+ '},
+              {'rate': '5%', 'q': '100% sure', 'enc': 'a%20b c'}, {'k': 'v' * 4096}, {'k': ''}, {}, {'k': 'é' * 2000 + ' '}]
+    for m in direct:
+        for en in ('aexec', 'aexecl'):
+            get(m, en, 'direct-entry'); post(m, en, 'direct-entry', hs=cl(m) if len(m) % 2 else None)
+    # 5. another request allocation size: requests BEYOND 10 000 bytes in a larger buffer, a buffer exactly as long as the request, a small one
+    def filled(meth, total, unit, ch, tail):
+        for key in ('k', 'kk', 'kkk', 'kkkk'):
+            q0 = enc({key: tail})
+            fixed = len(G.req('GET', GETP + '?' + q0, 'HTTP/1.1', [], b'')) if meth == 'GET' else len(G.req('POST', POSTP, 'HTTP/1.1', [X.CT], q0.encode()))
+            n = X.fill_to(total, fixed, unit)
+            if n is not None: return {key: ch * n + tail}
+        return None
+    shapes = ((1, 'x', ''), (2, 'é', ''), (3, '€', ' '), (4, '\U0001F600', '%'))
+    plan = (((ALLOC3, (10001, 12000, 20000, ALLOC3)), (16384, (10001, 16384)), (512, (511, 512)), (160, (159, 160))) if quick else
+            ((ALLOC3, (10001, 12000, 16384, 20000, 32768, 60000, ALLOC3 - 1, ALLOC3)), (16384, (10001, 16383, 16384)), (512, (511, 512)), (160, (159, 160))))
+    for alloc, totals in plan:
+        for ti, total in enumerate(totals):
+            for ui, (unit, ch, tail) in enumerate(shapes if not quick else shapes[ti % 4:ti % 4 + 1]):
+                for mi, meth in enumerate(('GET', 'POST')):
+                    m = filled(meth, total, unit, ch, tail)
+                    if m is None: continue
+                    (get if meth == 'GET' else post)(m, 'proc', f'allocation {alloc}', alloc=alloc)
+                    if alloc == ALLOC3 and (not quick or total <= 20000):
+                        (get if meth == 'GET' else post)(m, 'preq', f'allocation {alloc} process_request', alloc=alloc, t=tree3)
+    for m in ({'a': 'b'}, {'é': '€ &'}, {'k': ''}, {'k%02d' % i: 'v' * i for i in range(20)}):
+        for meth, mk in (('GET', get), ('POST', post)):
+            n = len(G.req('GET', GETP + '?' + enc(m), 'HTTP/1.1', [], b'')) if meth == 'GET' else len(G.req('POST', POSTP, 'HTTP/1.1', [X.CT], enc(m).encode()))
+            for alloc in ((n, n + 1, 2 * n, 20000) if quick else (n, n + 1, n + 2, 2 * n, 100000, 1 << 20)):
+                mk(m, 'proc', 'allocation around-request', alloc=alloc)
+    for m in [m for c, m in fm[::13]] + [{'Name': '1', 'name': '2'}, {'k': 'é' * 3000}]:
+        get(m, 'preq', f'allocation {ALLOC3} process_request', alloc=ALLOC3, t=tree3); post(m, 'preq', f'allocation {ALLOC3} process_request', alloc=ALLOC3, t=tree3, hs=cl(m))
+    # 6. shapes the statement does not speak about (judged only when the endpoint answers 200 / compared with the model only)
+    vm = [({'a': '1', 'B b': 'c&d=e', 'x': '?y#z'}, True), ({'k': 'v'}, True), ({'é': 'ü', 'naïve': 'café ☕ €', '\U0001F600': '日本'}, False), ({'k': 'é' * 40 + ' ' + '€' * 40}, False)]
+    for m, ascii_only in vm:
+        for name, hs in X.post_param_shapes(enc(m).encode(), ascii_only):
+            for en in ENT: post(m, en, 'variant ' + name, strict=False, hs=hs)
+        # fields in BOTH places (a body behind a GET, a query behind the POST target), a query on the POST target only
+        for en in ENT:
+            put(K.mk(tree4, 'GET', GETP + '?' + enc(m), [X.CT, ('Content-Length', '7')], b'b=2&z=9', entry=en, kind='echo-get'), m, 'variant get-with-body', None)
+            put(K.mk(tree4, 'POST', POSTP + '?b=2&z=9', cl(m), enc(m).encode(), entry=en, kind='echo-post'), m, 'variant post-with-query', None)
+            put(K.mk(tree4, 'POST', POSTP + '?', cl(m), enc(m).encode(), entry=en, kind='echo-post'), m, 'variant post-with-empty-query', None)
+
 def echo_part(res, rng, pool, tier):
     """third entry point of the property: the form echo endpoints of the server (GET /form-get-method?<query> and POST
     /form-url-encoded-enctype-post-method with the encoded body).  The query / body is what a correct encoder with the crate's
@@ -174,22 +255,27 @@ def echo_part(res, rng, pool, tier):
     tree2 = S.gen_tree(rng.fork('namesake'), small=True)
     for nm in (b'form-get-method', b'form-get-method.html', b'form-url-encoded-enctype-post-method', b'form-url-encoded-enctype-post-method.html'):
         tree2.file(tree2.cwd + b'/' + nm, b'static file named like the endpoint is not a field\r\n')
-    batches = {id(tree): (tree, [], []), id(tree2): (tree2, [], [])}
+    ALLOC3 = 65536
+    tree3 = S.gen_tree(rng.fork('other-allocation'), small=True)
+    tree4 = tree.clone()          # the second-pass classes run in a process of their own, next to the first-pass ones
+    batches = {id(tree): (tree, [], []), id(tree2): (tree2, [], []), id(tree3): (tree3, [], []), id(tree4): (tree4, [], [])}
     ENT = ['proc', 'preq']
     def enc(m): return '&'.join(py_encode(k) + '=' + py_encode(v) for k, v in m.items())
     def put(c, m, cls, strict):
-        if len(c.raw) > ALLOC: return False          # "total size within the request buffer"
+        if len(c.raw) > (c.alloc or ALLOC): return False          # "total size within the request buffer"
         t, cs, ms = batches[id(c.tree)]
         cs.append(c); ms.append((m, cls, strict)); return True
-    def get(m, entry, cls, strict=True, hs=(), version='HTTP/1.1', suffix='', t=None, eol=None):
+    def get(m, entry, cls, strict=True, hs=(), version='HTTP/1.1', suffix='', t=None, eol=None, alloc=ALLOC, body=b''):
         target = GETP + '?' + enc(m) + suffix
-        raw = G.req('GET', target, version, hs, b'', eol=eol) if eol else None
-        return put(K.mk(t or tree, 'GET', target, list(hs), b'', version=version, entry=entry, kind='echo-get', raw=raw), m, cls, strict)
-    def post(m, entry, cls, strict=True, hs=None, version='HTTP/1.1', t=None, eol=None):
+        raw = G.req('GET', target, version, hs, body, eol=eol) if eol else None
+        return put(K.mk(t or tree, 'GET', target, list(hs), body, version=version, entry=entry, kind='echo-get', raw=raw, alloc=alloc), m, cls, strict)
+    def post(m, entry, cls, strict=True, hs=None, version='HTTP/1.1', t=None, eol=None, alloc=ALLOC, suffix=''):
         body = enc(m).encode()
         hs = [X.CT] if hs is None else hs
-        raw = G.req('POST', POSTP, version, hs, body, eol=eol) if eol else None
-        return put(K.mk(t or tree, 'POST', POSTP, list(hs), body, version=version, entry=entry, kind='echo-post', raw=raw), m, cls, strict)
+        raw = G.req('POST', POSTP + suffix, version, hs, body, eol=eol) if eol else None
+        return put(K.mk(t or tree, 'POST', POSTP + suffix, list(hs), body, version=version, entry=entry, kind='echo-post', raw=raw, alloc=alloc), m, cls, strict)
+    def other(method, target, hs, body, entry, cls, t=None):      # a request that is NOT a form submission (it fails, or goes elsewhere): compared with the model only
+        return put(K.mk(t or tree, method, target, list(hs), body, entry=entry, kind='echo-other'), {}, cls, None)
     def both(m, cls):            # as before the audit: one GET and one POST, each through a random server entry point
         if len(enc(m).encode()) > 6000: return
         get(m, rng.choice(ENT), cls); post(m, rng.choice(ENT), cls)
@@ -264,8 +350,14 @@ def echo_part(res, rng, pool, tier):
             get(m, e, 'variant LF', strict=False, eol=b'\n'); post(m, e, 'variant LF', strict=False, eol=b'\n')
             get(m, e, 'variant namesake-file', strict=False, t=tree2); post(m, e, 'variant namesake-file', strict=False, t=tree2)
         for f in X.FRAGMENTS: get(m, rng.choice(ENT), 'variant fragment', strict=False, suffix=f)
-    results = K.run_batches([(t, cs) for t, cs, ms in batches.values() if cs], with_model=True)
-    metas = [x for t, cs, ms in batches.values() if cs for x in ms]
+    second_pass(locals())
+    results = K.run_batches([(t, cs) for t, cs, ms in batches.values() if cs and t is not tree3], with_model=True)
+    metas = [x for t, cs, ms in batches.values() if cs and t is not tree3 for x in ms]
+    # Server::process_request reads its buffer size from the environment: a batch of its own with another setting
+    t3, cs3, ms3 = batches[id(tree3)]
+    if cs3:
+        env3 = [(k, str(ALLOC3) if k == 'RWS_CONFIG_REQUEST_ALLOCATION_SIZE_IN_BYTES' else v) for k, v in S.DEFAULT_ENV]
+        results += K.run_batches([(t3, cs3)], with_model=True, env=env3); metas += ms3
     for (c, r, il, ml), (m, cls, strict) in zip(results, metas):
         res.evaluations += 1; res.programs += 1
         res.distinct.add(hash((c.entry, c.raw)))
@@ -275,8 +367,8 @@ def echo_part(res, rng, pool, tier):
         resp, why = K.parse_resp(r['writes'][0] if r['writes'] else b'')
         res.count(c.kind + ' ' + cls.split(' ')[0] + (' case-variant names' if len({k.lower() for k in m}) < len(m) else ''))
         for w in cls.split(' ')[1:]: res.count('echo class ' + w)
-        if len(c.raw) >= ALLOC - 1: res.count(f'echo request of {len(c.raw)} bytes')
-        if resp is None: continue      # framing: C05
+        if ALLOC - 1 <= len(c.raw) <= ALLOC: res.count(f'echo request of {len(c.raw)} bytes')
+        if resp is None or strict is None: continue      # framing: C05; not a form submission: model comparison only
         if not strict and resp['status'] != 200: res.count('variant not answered by the endpoint'); continue
         want = sorted((k + ' is ' + v).encode() for k, v in m.items())
         got = sorted(x for x in resp['body'].split(b'\r\n') if x) if resp['status'] == 200 else None
@@ -347,6 +439,25 @@ def run(res, tier, seed):
         if i % 4 == 0:     # shapes the statement does not speak about: compared with the model only
             add('requery ' + T(trng.choice(X.ODD_PATHS) + '?' + q), 'url')
             add('requery ' + T(path + '?' + q + trng.choice(X.FRAGMENTS)), 'url')
+    # ---- 2c. second audit pass (audit/C17/AUDIT2.md): relations a well-meant feature would hinge on
+    for s in X.chunk_residue_texts(quick): add('qrt ' + T(s), 'qrt', s)
+    for m in X.chunk_residue_maps(quick): add('maprt ' + pairs_field(m), 'map', m)
+    for i, (cls, m) in enumerate(X.feature_maps()):
+        add('maprt ' + pairs_field(m), 'map', m)
+        if not any(has_later(a) or has_later(b) for a, b in m.items()):      # ... and behind another path, fields in reverse order
+            path = X.SAFE_PATHS[i % len(X.SAFE_PATHS)]
+            add('requery ' + T(path + '?' + '&'.join(py_encode(a) + '=' + py_encode(b) for a, b in reversed(list(m.items())))), 'tq', (path, m))
+    for frame, m in X.align_sweeps(quick): add('maprt ' + pairs_field(m), 'map', m)
+    # histories: the second call after a first one that is as long / shares a prefix / differs in case / was longer / failed
+    FAILING = ['formparse ff', 'formparse c3', 'requery ' + T(':x'), 'urlparse ' + T('http://h:x/?a=b'), 'qparse ' + T('a=%&=&&'), 'formparse ' + C.hx(b'a=\xe2\x82&b=1')]
+    for si, seq in enumerate(X.history_sequences(quick)):
+        for i, m in enumerate(seq):
+            add('maprt ' + pairs_field(m), 'map', m)
+            k, v = next(iter(m.items()))
+            add('qrt ' + T(v if v else k), 'qrt', v if v else k)
+            if i % 3 == 2: add(FAILING[(si + i) % len(FAILING)], 'raw')
+            if not any(has_later(a) or has_later(b) for a, b in m.items()):
+                add('requery ' + T('/form-get-method?' + '&'.join(py_encode(a) + '=' + py_encode(b) for a, b in m.items())), 'tq', ('/form-get-method', m))
     for s in ('\r', '\n', '\r\n', '\t', '\x00', 'a\rb', 'a\nb', 'a\r\nb', '%0D%0A', '\r%0A', '%0D\n', ' \r\n ', 'a=b\r\n&c=d', '\x7f', '\x1f', '\x85', '\u00a0', '\u200b', '\ufeff', '\u2028'):
         for op in ('qrt ', 'qenc ', 'qdec ', 'qparse ', 'formparse '): add(op + T(s), 'raw')     # not printable: outside the quantifier
         add('maprt ' + pairs_field({'k' + s: s + 'v', s: s}), 'raw')
@@ -420,7 +531,15 @@ def run(res, tier, seed):
                 'families through GET / POST x process / process_request, fields keeping their percent signs (no literal later-processed code), no field at all, POST with an exact '
                 'Content-Length before / after the media type and inside a browser\'s header block (multi-byte bodies), GET with a browser\'s headers, requests of exactly '
                 'alloc-1 / alloc bytes (1- to 4-byte fill, an escape at the very end), and - judged only when the endpoint answers 200 - other HTTP versions, LF line ends, other '
-                'spellings of the media type / header names, fragments, a static file named like the endpoint')
+                'spellings of the media type / header names, fragments, a static file named like the endpoint; second audit pass (relations a feature would hinge on): one escaped / wide '
+                'character at every offset 0..' + str(33 if quick else 129) + ' of a plain run x tails of every residue of 8/16/32/64; runs of a 2-, 3-, 4-byte character, of an escape and of mixed units behind every shift, '
+                'filling a request to about 9 650 bytes (a character or an escape triplet across EVERY byte offset of every frame), as value and as name, through the codec and both echo endpoints; '
+                'histories on one process (same length / same first and last n bytes / one character apart at the end or in the middle only / equal under case folding / long-short-long / permuted / '
+                'a failing call in between), codec ops and GET then POST echo; quoted values and names, array / nested / dotted names next to their base name, literal texts of other escape syntaxes '
+                '(%uXXXX, \\uXXXX, \\xHH, &#NN;, quoted-printable, base64 padding), number / boolean / null spellings as values and as distinct names, comment and continuation signs at the start / end '
+                'of names and values, special-casing families (one character folding to two or three), texts that repeat the endpoint path or a whole query, one-character fields; the handler without the server '
+                '(aexec); other request allocation sizes (65 536 with requests of 10 001..65 536 bytes through process and process_request, 16 384, 512, 160, exactly the request length, +1, +2, x2, 1 MiB); '
+                'judged only on a 200: the media type with charset / boundary parameters and blanks; compared only: a body behind the GET, a query behind the POST target')
     res.exhaustive = 'encode->decode for all printable-ASCII strings of length 0..2 (9121) and all %XY over [0-9A-Fa-f] (484)'
     ni = [norm_line(l, a) for l, a in zip(lines, impl)]
     nm = [norm_line(l, b) for l, b in zip(lines, model)]
